@@ -610,7 +610,7 @@ pub fn entries_for(mode: Mode) -> Vec<&'static Entry> {
 fn delay_retune(mode: Mode, rng: &mut Rng, rep: &mut Report) -> Vec<(String, String, Value)> {
     use rustradio::block::{Block, BlockRet};
     use rustradio::blocks::Delay;
-    use rustradio::stream::new_stream;
+    use rustradio::stream::{Tag, TagValue, new_stream};
     let mut out = Vec::new();
     let sizes = [0usize, 1, 2, 5, 64, 700, 3000];
     for _ in 0..40 {
@@ -624,6 +624,7 @@ fn delay_retune(mode: Mode, rng: &mut Rng, rep: &mut Report) -> Vec<(String, Str
         let replay = json!({"part": "delay-retune", "delay": d0, "new_delays": changes.clone(), "before_first_call": before_start, "fed_before": n1, "fed_after": n2});
         rep.count("delay_retune_cases", 1);
         let data: Vec<u32> = (0..(n1 + n2) as u32).map(|i| i + 1).collect();
+        let tag_every = *rng.pick(&[1u32, 2, 7, 50]);
         // model
         let mut want: Vec<u32> = Vec::new();
         let (mut owed, mut skip) = (d0, 0usize);
@@ -650,18 +651,21 @@ fn delay_retune(mode: Mode, rng: &mut Rng, rep: &mut Report) -> Vec<(String, Str
         let _ = d1;
         want.extend(std::iter::repeat(0).take(owed));
         want.extend(data[n1..].iter().skip(skip));
-        let res = catch(|| -> Result<(Vec<u32>, Option<String>), String> {
+        let res = catch(|| -> Result<(Vec<u32>, Option<String>, Vec<(usize, String, TagValue)>), String> {
             let (w, r) = new_stream::<u32>();
             let (mut blk, o) = Delay::new(r, d0);
             let mut got: Vec<u32> = Vec::new();
             let mut spin: Option<String> = None;
+            // every sample whose (unique) value is 3 mod `tag_every` carries a tag holding that value
             let feed = |w: &rustradio::stream::WriteStream<u32>, d: &[u32]| {
                 if !d.is_empty() {
+                    let tags: Vec<Tag> = d.iter().enumerate().filter(|(_, v)| **v % tag_every == 3 % tag_every).map(|(i, v)| Tag::new(i, "v", TagValue::U64(*v as u64))).collect();
                     let mut wb = w.write_buf().unwrap();
                     wb.slice()[..d.len()].copy_from_slice(d);
-                    wb.produce(d.len(), &[]);
+                    wb.produce(d.len(), &tags);
                 }
             };
+            let mut got_tags: Vec<(usize, String, TagValue)> = Vec::new();
             let mut run = |blk: &mut Delay<u32>, got: &mut Vec<u32>, spin: &mut Option<String>| -> Result<(), String> {
                 let mut quiet = 0;
                 let mut idle_again = 0;
@@ -669,8 +673,11 @@ fn delay_retune(mode: Mode, rng: &mut Rng, rep: &mut Report) -> Vec<(String, Str
                     let b4 = rec::thread_data_events();
                     let again = matches!(blk.work().map_err(|e| format!("{e}"))?, BlockRet::Again);
                     let moved = rec::thread_data_events() != b4;
-                    let (rb, _) = o.read_buf().map_err(|e| format!("{e}"))?;
+                    let (rb, tg) = o.read_buf().map_err(|e| format!("{e}"))?;
                     let n = rb.len();
+                    for t in &tg {
+                        got_tags.push((got.len() + t.pos(), t.key().to_string(), t.val().clone()));
+                    }
                     got.extend_from_slice(rb.slice());
                     rb.consume(n);
                     if moved {
@@ -702,13 +709,59 @@ fn delay_retune(mode: Mode, rng: &mut Rng, rep: &mut Report) -> Vec<(String, Str
             run(&mut blk, &mut got, &mut spin)?;
             drop(w);
             run(&mut blk, &mut got, &mut spin)?;
-            Ok((got, spin))
+            drop(run);
+            Ok((got, spin, got_tags))
         });
         match res {
             Err(p) => out.push((format!("Delay::set_delay|panic|{}", sig_of_msg(&p)), format!("panicked: {p}; case {replay}"), replay)),
             Ok(Err(e)) => out.push(("Delay::set_delay|error".into(), format!("work() failed: {e}; case {replay}"), replay)),
-            Ok(Ok((got, spin))) => {
-                if mode == Mode::C09 {
+            Ok(Ok((got, spin, got_tags))) => {
+                if mode == Mode::C12 {
+                    // exactly once, on the output sample that corresponds to the tagged input
+                    // sample: values are unique, so the sample under a tag names its origin
+                    let mut seen = std::collections::BTreeMap::<u64, usize>::new();
+                    let mut bad: Option<String> = None;
+                    for (pos, key, val) in &got_tags {
+                        let v = match val {
+                            TagValue::U64(v) if key == "v" => *v,
+                            _ => {
+                                bad.get_or_insert(format!("a tag nobody attached: ({key}, {val:?}) at output index {pos}"));
+                                continue;
+                            }
+                        };
+                        *seen.entry(v).or_insert(0) += 1;
+                        // "shifted by the delay": the absolute index the specification gives that sample
+                        let want_at = want.iter().position(|w| *w as u64 == v);
+                        if want_at != Some(*pos) {
+                            bad.get_or_insert(format!("the tag of input sample {v} arrived at output index {pos}; with these delays that sample belongs at index {want_at:?}"));
+                        }
+                        if got.get(*pos).map(|s| *s as u64) != Some(v) {
+                            bad.get_or_insert(format!("the tag of input sample {v} arrived at output index {pos}, which holds sample {:?}", got.get(*pos)));
+                        }
+                    }
+                    for (v, n) in &seen {
+                        if *n != 1 {
+                            bad.get_or_insert(format!("the tag of input sample {v} was delivered {n} times"));
+                        }
+                    }
+                    for v in got.iter().filter(|v| **v != 0 && **v % tag_every == 3 % tag_every) {
+                        if !seen.contains_key(&(*v as u64)) {
+                            bad.get_or_insert(format!("input sample {v} was delivered without its tag"));
+                        }
+                    }
+                    // every tag whose sample these delays let through is delivered
+                    for v in want.iter().filter(|v| **v != 0 && **v % tag_every == 3 % tag_every) {
+                        if !seen.contains_key(&(*v as u64)) {
+                            bad.get_or_insert(format!("the tag of input sample {v} never arrived (these delays do not skip that sample)"));
+                        }
+                    }
+                    match bad {
+                        Some(b) => out.push(("Delay::set_delay|tag-misplaced-lost-or-duplicated".into(), format!("{b}; {} samples out, {} tags out; case {replay}", got.len(), got_tags.len()), replay)),
+                        None => {
+                            rep.count("delay_retune_tags_checked", got_tags.len() as u64);
+                        }
+                    }
+                } else if mode == Mode::C09 {
                     if let Some(sp) = spin {
                         out.push(("Delay::set_delay|idle-spin".into(), format!("{sp}; case {replay}"), replay));
                     }
@@ -735,7 +788,7 @@ pub fn main(opts: &Opts, mode: Mode) -> Report {
         Mode::C08 => "per case: one library block x seeded parameters x seeded input (0..3 stream capacities) x seeded adversarial drip-feed schedule (feed 1..all, work 1..4, drain 0..all; phases trickle/small/bulk/output-kept-full) on 1-4 page streams; output compared bit-for-bit with a one-shot run on default streams, prefix checked at every drain; in a third of the scheduled calls the harness also acts as the concurrently running neighbour blocks inside the call (drains an output / feeds an input at the stream operations' yield points); distinct = (block, input situation, output situation, verdict, named stream) combinations visited by work() calls".into(),
         Mode::C09 => "the C08 catalogue and schedules, and in a third of the scheduled calls the harness also acts as the neighbouring blocks *inside* the call: at the yield points of the stream operations (no lock held) it drains an output or feeds an input, as concurrently running neighbours do under MTGraph; every work() call is observed through the stream hooks: offered vs moved per stream (with activity inside the call: every commit against the window the block was actually handed), handle counts after return, stream named by a wait verdict (identified with a non-blocking wait(0) probe); after a wait verdict the harness satisfies exactly that request and demands progress or a changed verdict within 3 calls; Again without movement is re-called 8 times; after the inputs ended retirement is demanded within 8 calls; plus Delay::set_delay() scenarios (delay changed before the first call or at a quiescent point, input ending inside a pending skip): no idle spin; distinct = (block, input situation, output situation, verdict, named stream)".into(),
         Mode::C10 => "per case: block x seeded parameters x seeded input; output of the one-shot run and of the chunked run compared with an executable specification written from the documentation (for Delay also with set_delay() before the first call or at a quiescent point); in a third of the scheduled calls the harness also acts as the concurrently running neighbour blocks inside the call (drains an output / feeds an input at the stream operations' yield points); distinct = (block, situation, verdict) as in C08".into(),
-        Mode::C12 => "per case: block x parameters x input carrying uniquely keyed tags clustered at likely split points x drip-feed schedule; the multiset of (key, value, absolute output index) observed at the output compared with the expected mapping; in a third of the scheduled calls the harness also acts as the concurrently running neighbour blocks inside the call (drains an output / feeds an input at the stream operations' yield points); distinct as in C08".into(),
+        Mode::C12 => "per case: block x parameters x input carrying uniquely keyed tags clustered at likely split points x drip-feed schedule (for Delay also with set_delay() before the first call or at a quiescent point, every tag carrying the unique value of its sample); the multiset of (key, value, absolute output index) observed at the output compared with the expected mapping; in a third of the scheduled calls the harness also acts as the concurrently running neighbour blocks inside the call (drains an output / feeds an input at the stream operations' yield points); distinct as in C08".into(),
     };
     rep.assume("the harness plays both neighbours from one thread; reference run = same block constructor on default-size streams with all input delivered at once");
 
@@ -754,7 +807,7 @@ pub fn main(opts: &Opts, mode: Mode) -> Report {
         return rep;
     }
 
-    if (mode == Mode::C09 || mode == Mode::C10) && opts.val("entry").is_none() {
+    if (mode == Mode::C09 || mode == Mode::C10 || mode == Mode::C12) && opts.val("entry").is_none() {
         rec::install(true);
         let mut r2 = Rng::new(opts.shard_seed() ^ 0xDE1A7);
         for (class, detail, replay) in delay_retune(mode, &mut r2, &mut rep) {
